@@ -65,6 +65,10 @@ type Baseline struct {
 	Kept map[string][]string `json:"kept_candidates,omitempty"`
 	// DeadReturns: return statements (by canary id) that are unreachable on the unchanged tree
 	DeadReturns []string `json:"dead_returns,omitempty"`
+	// ReturnCounts: number of per-return canaries of each function on the unchanged tree; when the
+	// number differs the return ordinals no longer denote the same statements and the per-return
+	// comparison is skipped for that function (the exit canary still applies)
+	ReturnCounts map[string]int `json:"return_counts,omitempty"`
 }
 
 func baselinePath(id string) string { return filepath.Join(verifDir, "spec", id+".baseline.json") }
@@ -323,6 +327,25 @@ func (r *propRun) exec() int {
 			r.notes[n] = true
 		}
 		clean := true
+		nRet := 0
+		for _, res := range fo.Results {
+			if res.O.Canary && strings.Contains(res.O.ID, "return_reachable") {
+				nRet++
+			}
+		}
+		if nRet > 0 {
+			if newBL.ReturnCounts == nil {
+				newBL.ReturnCounts = map[string]int{}
+			}
+			newBL.ReturnCounts[u.Func] = nRet
+		}
+		sameReturns := true
+		if bl != nil && bl.ReturnCounts != nil {
+			if n, ok := bl.ReturnCounts[u.Func]; ok && n != nRet {
+				sameReturns = false
+				r.notes[fmt.Sprintf("%s: number of return statements changed (%d recorded, %d now); per-return vacuity canaries not compared", u.Func, n, nRet)] = true
+			}
+		}
 		for _, res := range fo.Results {
 			o := res.O
 			r.solverTime += res.R.TimeS
@@ -334,7 +357,7 @@ func (r *propRun) exec() int {
 						newBL.DeadReturns = append(newBL.DeadReturns, o.ID)
 						if r.update {
 							fmt.Printf("note: %s is unreachable under the assumed contracts (recorded)\n", o.ID)
-						} else if !blDead[o.ID] {
+						} else if !blDead[o.ID] && sameReturns {
 							r.broken = append(r.broken, "vacuity: "+o.ID+" became unreachable under the assumed contracts and invariants")
 						}
 					} else {
